@@ -15,7 +15,7 @@ import (
 func init() {
 	register(&Check{
 		ID: "C04", Level: "exploration", QuickSecs: 170, ThoroughSecs: 1500,
-		Rule:        "(i) naming: every pair of rule names from {A, A1, A1_, a, _x, Été, B2} x block positions 1..12 in the first rule (a chain of trivial items before the block) x block position 1 or 2 in the second x block kinds; (ii) scoping: every placement of <= 2 labels and the code blocks of all four kinds over the scope-introducing constructs (rule, choice alternative, label, & !, ? * +, recovery, nested sequence) up to N nodes (quick 4, thorough 5), blocks listing exactly the labels of their scope (reference scope rule); leaf rules with labels inlined by -optimize-grammar; a leaf rule holding blocks of every kind inlined into two or three recursive rules (every copy needs its own methods); (iii) classes: one grammar naming EVERY Unicode class the front-end accepts plus the single-letter classes. For every emitted text (hook build mode, all of them): each block has exactly one on-method and one trampoline, no duplicate method names, no duplicate parameters, parameters = stack keys = labels of the block's scope. For a systematic batch (and every family (i)/(iii) member) x flag combinations of -optimize-parser -optimize-grammar -optimize-basic-latin -support-left-recursion -nolint -cache and -receiver-name {c,p,cur}: the real main() output is written to a scratch module, then ONE gofmt -l, go build ./..., go vet ./... and one binary importing every package whose main calls Parse once per package (package initialisation must not panic; every class resolves). Non-trivial = grammars with >= 2 blocks or >= 1 label in a nested scope.",
+		Rule:        "(i) naming: every pair of rule names from {A, A1, A1_, a, _x, Été, B2} x block positions 1..12 in the first rule (a chain of trivial items before the block) x block position 1 or 2 in the second x block kinds; (ii) scoping: every placement of <= 2 labels and the code blocks of all four kinds over the scope-introducing constructs (rule, choice alternative, label, & !, ? * +, recovery, nested sequence) up to N nodes (quick 4, thorough 5), blocks listing exactly the labels of their scope (reference scope rule); leaf rules with labels inlined by -optimize-grammar; a leaf rule holding blocks of every kind inlined into two or three recursive rules (every copy needs its own methods); (iii-b) optional helpers: 6 orders x 5 subsets of {rule with Unicode classes, rule with a plain class, rule with a state block, left-recursive rule} x 3 flag sets, compiled; (iii) classes: one grammar naming EVERY Unicode class the front-end accepts plus the single-letter classes. For every emitted text (hook build mode, all of them): each block has exactly one on-method and one trampoline, no duplicate method names, no duplicate parameters, parameters = stack keys = labels of the block's scope. For a systematic batch (and every family (i)/(iii) member) x flag combinations of -optimize-parser -optimize-grammar -optimize-basic-latin -support-left-recursion -nolint -cache and -receiver-name {c,p,cur}: the real main() output is written to a scratch module, then ONE gofmt -l, go build ./..., go vet ./... and one binary importing every package whose main calls Parse once per package (package initialisation must not panic; every class resolves). Non-trivial = grammars with >= 2 blocks or >= 1 label in a nested scope.",
 		Assumptions: []string{"the Go toolchain (gofmt, go build, go vet) is the judge of 'compiles and vets'", "blocks are well-typed by construction"},
 		Run:         runC04,
 		Post:        postC04,
@@ -217,6 +217,45 @@ func runC04(c *ShardCtx) {
 					structural(g, gen, "inlining into several rules", false)
 				}
 				addBatch(strings.Replace(peg.Print(g, nil), "package vgram", "package PKG", 1), core.Gen{OptGrammar: true}.Argv(), "inlining into several rules", li != 3 || shape == 0)
+			}
+		}
+	}
+	// (iii-b) optional helpers: every ORDER of a rule with a Unicode class, a rule with a plain
+	// class, a rule with a state block and a left-recursive rule (what the emitted file contains
+	// must depend on what the grammar uses, not on what was written last) x flag sets
+	{
+		lit := peg.Lit
+		parts := []func() *peg.Rule{
+			func() *peg.Rule { return &peg.Rule{Name: "U", Expr: peg.Plus(peg.Cls(false, false, `\pL`, `\p{Nd}`))} },
+			func() *peg.Rule { return &peg.Rule{Name: "P", Expr: peg.Star(peg.Cls(false, true, "a-c", " "))} },
+			func() *peg.Rule { return &peg.Rule{Name: "T", Expr: peg.Seq(peg.StateCode(0), lit("t"))} },
+			func() *peg.Rule { return &peg.Rule{Name: "R", Expr: peg.Choice(peg.Seq(peg.Ref("R"), lit("r")), lit("q"))} },
+		}
+		perms := [][]int{{0, 1, 2, 3}, {1, 0, 3, 2}, {3, 2, 1, 0}, {2, 0, 1, 3}, {0, 3, 2, 1}, {1, 2, 3, 0}}
+		for pi, pm := range perms {
+			for drop := -1; drop < 4; drop++ {
+				idx++
+				if !c.Mine(idx) {
+					continue
+				}
+				g := &peg.Grammar{}
+				var refs []*peg.Expr
+				for _, k := range pm {
+					if k == drop {
+						continue
+					}
+					r := parts[k]()
+					g.Rules = append(g.Rules, r)
+					refs = append(refs, peg.Opt(peg.Ref(r.Name)))
+				}
+				g.Rules = append([]*peg.Rule{{Name: "S", Expr: peg.Action(0, peg.Seq(refs...))}}, g.Rules...)
+				peg.Renumber(g, 1)
+				peg.AssignArgs(g)
+				text := strings.Replace(peg.Print(g, nil), "package vgram", "package PKG", 1)
+				c.Res.Grammars++
+				for fi, argv := range [][]string{{"-support-left-recursion"}, {"-support-left-recursion", "-optimize-grammar"}, {"-support-left-recursion", "-optimize-parser", "-optimize-basic-latin"}} {
+					addBatch(text, argv, "optional helpers", c.Thorough() || (pi+drop+fi)%3 == 0)
+				}
 			}
 		}
 	}
